@@ -24,6 +24,11 @@ func digits(s string, a, b int) (int, bool) {
 
 func c19Check(c *fw.Case, now time.Time, v string, d time.Duration, parsable bool, class string) {
 	c19Forms(c, now, v, d, parsable, class, []bool{true, false})
+	c.Echo("ToValidatePeriod", func() string {
+		a, e1 := smpp.ToValidatePeriod(now, v, false)
+		r, e2 := smpp.ToValidatePeriod(now, v, true)
+		return fmt.Sprintf("absolute=(%q,%v) relative=(%q,%v)", a, e1, r, e2)
+	})
 }
 
 // c19Forms judges one call per listed form, in the listed order.
